@@ -1,4 +1,4 @@
 ------------------------------ MODULE FooterGen ------------------------------
 EXTENDS Footer, Json
-GenInit == Init /\ PrintT("VFOOT " \o ToJson([c EXCEPT !.kind = c.kind] @@ [valid |-> Valid(c), short |-> TooShort(c)]))
+GenInit == Init /\ PrintT("VFOOT " \o ToJson([c EXCEPT !.kind = c.kind] @@ [valid |-> Valid(c), short |-> TooShort(c), ovf |-> Overflowing(c)]))
 =============================================================================
